@@ -1230,4 +1230,65 @@ theorem matchExactTree_np (re : Rx.Regex) (hw : re.wf = true) : (matchExactTree 
             simp only [decide_eq_true_eq]
             omega
 
+/-! ## `RewriteFields`: prologue of the call case -/
+
+/-- The descent either ends on a call (name, args) or runs out of fuel; it never panics. -/
+theorem innerCallLoop_cases : ∀ (fuel : Nat) (name : Str) (args : List Expr),
+    (∃ r, innerCallLoop fuel name args = .ok r) ∨ (∃ m, innerCallLoop fuel name args = .err m)
+  | 0, _, _ => .inr ⟨_, rfl⟩
+  | fuel + 1, name, args => by
+    rw [innerCallLoop]
+    split
+    · rename_i h
+      rw [idx_of_eq sRFArgs0 args (i := 0) (n := 0) (x := args[0]) rfl (List.getElem?_eq_getElem h)]
+      simp only [ok_bind]
+      split
+      · exact innerCallLoop_cases fuel _ _
+      · exact .inl ⟨_, rfl⟩
+    · exact .inl ⟨_, rfl⟩
+
+theorem rewriteFieldsCallHead_np (fuel : Nat) (name : Str) (args : List Expr) :
+    (rewriteFieldsCallHead fuel (.call name args)).isPanic = false := by
+  unfold rewriteFieldsCallHead
+  rw [cloneExpr_eq]
+  simp only [ok_bind, asCall, assertT]
+  rcases innerCallLoop_cases fuel name args with ⟨r, hr⟩ | ⟨m, hm⟩
+  · rw [hr]
+    obtain ⟨cn, cargs⟩ := r
+    simp only [ok_bind]
+    split
+    · rfl
+    · rename_i h
+      rw [idx_of_eq sRFArgs0 cargs (i := 0) (n := 0) (x := cargs[0]) rfl
+        (List.getElem?_eq_getElem (by omega))]
+      rfl
+  · rw [hm]; rfl
+
+/-- The descent ends: some fuel suffices (the tree is finite). -/
+theorem innerCallLoop_terminates : ∀ (name : Str) (args : List Expr),
+    ∃ fuel r, innerCallLoop fuel name args = .ok r
+  | name, [] => ⟨1, _, rfl⟩
+  | name, .call n' a' :: rest => by
+    obtain ⟨f, r, h⟩ := innerCallLoop_terminates n' a'
+    refine ⟨f + 1, r, ?_⟩
+    rw [innerCallLoop, if_pos (by simp),
+      idx_of_eq sRFArgs0 _ (i := 0) (n := 0) (x := .call n' a') rfl rfl]
+    exact h
+  | name, .binary .. :: rest => ⟨1, _, rfl⟩
+  | name, .paren _ :: rest => ⟨1, _, rfl⟩
+  | name, .varRef .. :: rest => ⟨1, _, rfl⟩
+  | name, .distinct _ :: rest => ⟨1, _, rfl⟩
+  | name, .wildcard _ :: rest => ⟨1, _, rfl⟩
+  | name, .regex _ :: rest => ⟨1, _, rfl⟩
+  | name, .string _ :: rest => ⟨1, _, rfl⟩
+  | name, .number _ :: rest => ⟨1, _, rfl⟩
+  | name, .integer _ :: rest => ⟨1, _, rfl⟩
+  | name, .unsigned _ :: rest => ⟨1, _, rfl⟩
+  | name, .boolean _ :: rest => ⟨1, _, rfl⟩
+  | name, .duration _ :: rest => ⟨1, _, rfl⟩
+  | name, .time _ :: rest => ⟨1, _, rfl⟩
+  | name, .nil :: rest => ⟨1, _, rfl⟩
+  | name, .list _ :: rest => ⟨1, _, rfl⟩
+  | name, .boundParam _ :: rest => ⟨1, _, rfl⟩
+
 end InfluxQL.Checked
